@@ -156,7 +156,7 @@ Lemma file_seek_spec w f off data w' x h :
     match e with
     | ENone => (0 <= r)%Z /\ if data then DataRes f (Z.to_nat off) (Z.to_nat r) else HoleRes f (Z.to_nat off) (Z.to_nat r)
     | EEOF => data = true /\ forall j, Z.to_nat off <= j -> ~ data_at f j
-    | _ => ejust w' e
+    | _ => e = EInjected /\ ejust w' e
     end.
 Proof.
   intros I1 I3 HI4 HL Hoff Hlt H. unfold file_seek in H.
@@ -182,7 +182,7 @@ Proof.
       destruct (Hhole offn w1 r1 e1 eq_refl) as (PH & Hcase); [intros j Hj; lia|].
       injection H as <- <-. eexists; exists e1. split; [reflexivity|]. split; [apply PH|]. split; [apply PH|].
       destruct Hcase as [->|[(-> & Hn & Hl)|(-> & -> & HR)]].
-      * apply PH.
+      * split; [reflexivity|apply PH].
       * split; auto. intros j Hj [Hd|Hd]; [|specialize (Hl j Hj Hj); lia].
         apply Hd. apply nth_overflow. assert (si <= j / ss) by (rewrite Hsi; apply Nat.div_le_mono; lia). lia.
       * split; [lia|]. replace (Z.to_nat (Z.of_N offN)) with offn by lia. exact HR.
@@ -208,7 +208,7 @@ Proof.
           specialize (H2 (j / ss) ltac:(lia)). destruct (nth (j / ss) (f_secs f) 0 =? 0) eqn:E0; [lia|discriminate]. }
         assert (Hso : si' * ss < fs) by nia.
         destruct Hcase as [->|[(-> & Hn & Hl)|(-> & -> & HR)]].
-        -- injection H as <- <-. eexists; exists EInjected. split; [reflexivity|]. split; [apply PH|]. split; apply PH.
+        -- injection H as <- <-. eexists; exists EInjected. split; [reflexivity|]. split; [apply PH|]. split; [apply PH|]. split; [reflexivity|apply PH].
         -- injection H as <- <-. eexists; exists ENone. split; [reflexivity|]. split; [apply PH|]. split; [apply PH|].
            split; [lia|]. replace (Z.to_nat (Z.of_N (N.of_nat si' * N.of_nat ss))) with (si' * ss) by lia.
            unfold DataRes. fold fs. splits; auto; try nia.
@@ -221,7 +221,7 @@ Proof.
     apply (shl_spec f h I1) in EL; auto; [|left; lia|lia].
     destruct EL as (PL & Hres & He). injection H as <- <-. eexists; exists e1. split; [reflexivity|].
     split; [apply PL|]. split; [apply PL|].
-    destruct He as [-> | ->]; [|apply PL]. split; [lia|].
+    destruct He as [-> | ->]; [|split; [reflexivity|apply PL]]. split; [lia|].
     replace (Z.to_nat (Z.of_N r1)) with (N.to_nat r1) by lia. rewrite Hoffn in Hres. auto.
 Qed.
 
